@@ -242,6 +242,34 @@ class Gen:
         lines.append('//@fn-begin %s' % fn.path)
         for a in fn.attrs:
             lines.append(a)
+        if (not stub) and fn.outline == 'only' and is_trait_impl:
+            # R30 (free-standing form): the trait is not reproduced; only the body is verified, as a free function over
+            # `self_` with the impl's generics.  Used where the trait carries associated types the unit does not need.
+            self_ty = header.split(' for ', 1)[1].strip()
+            mg = re.match(r'impl\s*(<[^>]*>)', header)
+            generics = mg.group(1) if mg else ''
+            oname = '%s__outlined_%s' % (fn.short, re.sub(r'_+', '_', re.sub(r'\W+', '_', header)).strip('_'))
+            sub = lambda t: re.sub(r'\bself\b', 'self_', t)
+            mh = re.match(r'fn\s+\w+\s*\((.*)\)\s*$', head, re.S)
+            params = [x.strip() for x in _split_top(mh.group(1)) if x.strip()]
+            if not params or params[0] not in ('self', '&self'):
+                raise AnchorError('%s: outlining supports `self` / `&self` receivers only' % fn.path)
+            p0 = 'self_: ' + (self_ty if params[0] == 'self' else '&' + self_ty)
+            ol = ['//@fn-begin %s' % fn.path, '// R30: body of %s verified as a free function' % fn.path]
+            for a in fn.attrs:
+                ol.append(a)
+            ohead = 'pub fn %s%s(%s)%s %s' % (oname, generics, ', '.join([p0] + params[1:]), retdecl.replace(': Self)', ': %s)' % self_ty), where)
+            ol.append(ohead)
+            import copy
+            f2 = copy.copy(fn)
+            f2.requires = [sub(x) for x in fn.requires]
+            f2.ensures = [sub(x) for x in fn.ensures]
+            f2.valid = sub(fn.valid) if fn.valid else fn.valid
+            ol += render_contract(f2, ol, False, trait_impl=False)
+            ol.append(sub(self.body_text(fn, body)))
+            ol.append('//@fn-end %s' % fn.path)
+            self.log.add('R30', fn.path, head, ohead)
+            return None, False, {}, '\n'.join(ol)
         outl = (not stub) and fn.outline and is_trait_impl
         if stub or outl:
             lines.append('#[verifier::external_body]')
@@ -307,6 +335,7 @@ class Gen:
                 text = re.sub(pat, lambda _m: new, text)
             log.add('RX(%s)' % why, p, old, new)
         text = rules.r32_fold(text, p, log)
+        text = rules.r33_enumerate_map(text, p, log)
         text = rules.r1_assert_eq(text, p, log)
         text = rules.r4_let_match(text, p, log)
 
